@@ -94,7 +94,8 @@ Inv_C09_NoUnderscoreLeft == (pc = "done" /\ out # name) => \A j \in 1..Len(out) 
 Inv_C09_AlwaysIdentifier == pc = "done" => IsPyIdent(out)
 Inv_C09_OffIsIdentity == Render(name, cls, FALSE) = name
 Live_Done == <>(pc = "done")
-Emit == (pc = "done" /\ ~cls) => PrintT(ToJson([name |-> name]))
+(* `camel` is the name's own camel form: a *different* Python name that is rendered the same under conversion (get_area / getArea) *)
+Emit == (pc = "done" /\ ~cls) => PrintT(ToJson([name |-> name, camel |-> out]))
 
 (***************************************************************************)
 (* Judging.  Function level: obs = [lower, upper, off] (what the           *)
